@@ -30,6 +30,7 @@ const (
 	oSeg opk = iota
 	oFlushOlder
 	oFlushAll
+	oFlushOlderMid // age flush whose cut-off lies after the pre-fed packets and before the threads' packets
 )
 
 type pkt struct {
@@ -41,6 +42,8 @@ type pkt struct {
 
 func (p pkt) String() string {
 	switch p.k {
+	case oFlushOlderMid:
+		return "FlushOlderThan(between the earlier and the concurrent packets)"
 	case oFlushOlder:
 		return "FlushOlderThan(future)"
 	case oFlushAll:
@@ -53,6 +56,9 @@ type scenario struct {
 	name    string
 	pre     []pkt   // fed sequentially by assembler 0 before the threads start
 	threads [][]pkt // one assembler per thread
+	// waitKey+1 != 0: the factory call for that connection key waits until thread 0 has
+	// finished (a factory that has to wait for a resource another assembler frees)
+	waitKeyPlus1 int
 }
 
 func seg(key, dir int, e tm.Event) pkt { return pkt{k: oSeg, key: key, dir: dir, ev: e} }
@@ -86,6 +92,16 @@ func scenarios() []scenario {
 		{name: "S9-close-and-reopen-vs-flusher",
 			pre:     []pkt{seg(0, 0, syn), seg(0, 0, d(0, 2, false))},
 			threads: [][]pkt{{seg(0, 0, tm.Event{K: tm.RST}), seg(0, 0, syn), seg(0, 0, d(0, 2, false))}, {{k: oFlushOlder}, {k: oFlushAll}}}},
+		// a stream factory that waits for something only the other assembler can bring about:
+		// it must not be called with a pool-wide lock held
+		{name: "S10-factory-waits-for-the-other-assembler", waitKeyPlus1: 2,
+			threads: [][]pkt{{seg(0, 0, syn), seg(0, 0, d(0, 2, false))}, {seg(1, 0, syn), seg(1, 0, d(0, 2, false))}}},
+		// an age flush running while a connection it may judge stale receives newer data
+		// (one connection only: the flush functions walk the pool's map, whose iteration order the
+		// harness does not control - with two connections the same schedule could run differently)
+		{name: "S11-age-flush-vs-newer-data",
+			pre:     []pkt{seg(1, 0, syn), seg(1, 0, d(0, 2, false))},
+			threads: [][]pkt{{{k: oFlushOlderMid}}, {seg(1, 0, d(2, 4, false))}}},
 		// both directions of one established connection are fed at the same moment by two assemblers
 		{name: "S8-both-directions-of-an-established-connection",
 			pre:     []pkt{seg(0, 0, syn), seg(0, 1, syn)},
@@ -104,17 +120,20 @@ type stream struct {
 	after    bool
 	inst     tm.Inst
 	dir      *tm.Dir
-	judged   bool // the direction is fed in order by a single thread
+	judged   bool      // the direction is fed in order by a single thread
+	newest   time.Time // newest packet time among the data handed over
 }
 
 type world struct {
-	sc      *scenario
-	pool    *tcpassembly.StreamPool
-	asms    []*tcpassembly.Assembler
-	streams []*stream
-	viol    []string
-	what    string
-	single  map[string]bool
+	finished []bool            // per thread: body done
+	ageFlush map[int]time.Time // thread id -> cut-off of the age flush it is executing
+	sc       *scenario
+	pool     *tcpassembly.StreamPool
+	asms     []*tcpassembly.Assembler
+	streams  []*stream
+	viol     []string
+	what     string
+	single   map[string]bool
 }
 
 func (w *world) fail(k, what string) {
@@ -148,6 +167,9 @@ func (s *stream) Reassembled(rs []tcpassembly.Reassembly) {
 	}
 	off := keyOffset(s.key)
 	for _, r := range rs {
+		if r.Seen.After(s.newest) {
+			s.newest = r.Seen
+		}
 		foreign := false
 		for _, b := range r.Bytes {
 			if int(b-'a') < off || int(b-'a') >= off+n {
@@ -170,6 +192,9 @@ func (s *stream) Reassembled(rs []tcpassembly.Reassembly) {
 }
 
 func (s *stream) ReassemblyComplete() {
+	if cut, ok := s.w.ageFlush[vsync.CurrentThread()]; ok && !s.newest.Before(cut) {
+		s.w.fail("closed-by-age-flush-after-newer-data", fmt.Sprintf("stream of %s was completed by FlushOlderThan(%s) although it had been handed data seen at %s", s.key, cut.Sub(t0), s.newest.Sub(t0)))
+	}
 	s.in++
 	if s.in != 1 {
 		s.w.fail("callbacks-overlap", "ReassemblyComplete entered while another callback of the same stream is running")
@@ -206,6 +231,9 @@ func (f factory) New(netFlow, tcpFlow gopacket.Flow) tcpassembly.Stream {
 	if len(src) == 4 {
 		key = int(src[3])
 	}
+	if wk := f.w.sc.waitKeyPlus1 - 1; wk >= 0 && (key == wk || key == 100+wk) && vsync.Exploring() {
+		vsync.WaitFor("StreamFactory.New waiting for the other assembler to finish", func() bool { return f.w.finished[0] })
+	}
 	dir := 0
 	if key >= 100 {
 		key -= 100
@@ -229,6 +257,11 @@ func flows(key, dir int) gopacket.Flow {
 
 func (w *world) feed(a *tcpassembly.Assembler, p pkt, ts time.Time) {
 	switch p.k {
+	case oFlushOlderMid:
+		cut := t0.Add(7 * time.Second)
+		w.ageFlush[vsync.CurrentThread()] = cut
+		a.FlushOlderThan(cut)
+		delete(w.ageFlush, vsync.CurrentThread())
 	case oFlushOlder:
 		a.FlushOlderThan(t0.Add(time.Hour))
 	case oFlushAll:
@@ -293,6 +326,8 @@ func runOnce(sc *scenario, c *dfs.Chooser) result {
 	for i, p := range sc.pre {
 		w.feed(w.asms[0], p, t0.Add(time.Duration(i)*time.Second))
 	}
+	w.finished = make([]bool, len(sc.threads))
+	w.ageFlush = map[int]time.Time{}
 	var bodies []func()
 	for ti, th := range sc.threads {
 		ti, th := ti, th
@@ -300,6 +335,7 @@ func runOnce(sc *scenario, c *dfs.Chooser) result {
 			for i, p := range th {
 				w.feed(w.asms[ti], p, t0.Add(time.Duration(10+ti*10+i)*time.Second))
 			}
+			w.finished[ti] = true
 		})
 	}
 	res := vsync.Run(c, 1500, bodies)
